@@ -1354,10 +1354,20 @@ impl KeyFlags {
     /// <https://www.gnupg.org/blog/20230321-adsk.html>
     pub fn set_adsk(&mut self, val: bool) {
         self.known.set_adsk(val);
+        self.second_octet_in_use();
     }
 
     pub fn set_timestamping(&mut self, val: bool) {
         self.known.set_timestamping(val);
+        self.second_octet_in_use();
+    }
+
+    /// Flags in the second octet are written as two octets, and parse back as such.
+    fn second_octet_in_use(&mut self) {
+        let [_, b] = self.known.into_bits().to_le_bytes();
+        if b != 0 && self.original_len < 2 {
+            self.original_len = 2;
+        }
     }
 
     pub fn certify(&self) -> bool {
